@@ -240,12 +240,51 @@ def r_listsib(E):
             ok = new_arg.endswith(", []]]") and real == ("clear", [])
         elif m == "extend":
             loop = next((n for n in ast.walk(fn) if isinstance(n, ast.For)), None)
-            ok = shadow == ("extend", ["values"]) and loop is not None and norm(loop.iter) == "values" and \
+            from ..astutil import fully_expanded as _fx
+            it = norm(_fx(loop.iter, fn)) if loop is not None else ""
+            snapshot = it in ("list(values)", "tuple(values)", "[v for v in values]", "values[:]", "values.copy()", "copy(values)") \
+                or (it.startswith("[") and it.endswith(" in values]"))
+            ok = shadow == ("extend", ["values"]) and loop is not None and (it == "values" or snapshot) and \
                 any(norm(cl.func) == "self.append" and [norm(a) for a in cl.args] == [norm(loop.target)] for cl in _calls(loop))
+            if ok and not snapshot:
+                # the argument may be the list itself (x.extend(x), x += x): appending while iterating over it never ends
+                res.findings.append(Finding(
+                    "R-LISTSIB", f"{where} replay iterates its argument while appending",
+                    f"{where}: the replay loop iterates over `values` itself while appending to the list: for "
+                    f"`x.extend(x)` / `x += x` (a Python list doubles) the loop feeds on what it appends and never "
+                    f"terminates; it has to iterate over a snapshot (`list(values)`)", rel, loop.lineno, where))
         elif m == "__imul__":
             ok = shadow == ("__imul__", ["n"])
-            res.notes.append("__imul__: the replay on the orphaned receiver (n-1 extends) is not compared (frozen: the "
-                             "shadow copy is what the model ends up holding)")
+            # the replay on the receiver — which `x.attr *= n` assigns back to the attribute, so it *is* what the model
+            # ends up holding — must give n times the initial content: each of the n-1 extensions adds a snapshot taken
+            # before the loop (an operand that reads the growing list doubles it every time), and n <= 0 empties the list
+            npar = fn.args.args[1].arg if len(fn.args.args) > 1 else "n"
+            loops = [l for l in ast.walk(fn) if isinstance(l, ast.For) and isinstance(l.iter, ast.Call)
+                     and norm(l.iter.func) == "range" and npar in norm(l.iter)]
+            grows = None
+            for l in loops:
+                for cl in _calls(l):
+                    if isinstance(cl.func, ast.Attribute) and cl.func.attr in ("extend", "__iadd__", "append") \
+                            and norm(cl.func.value) in ("self", "super()"):
+                        if any(isinstance(x, ast.Name) and x.id == "self" for a in cl.args for x in ast.walk(a)):
+                            grows = cl
+                for a in ast.walk(l):
+                    if isinstance(a, ast.AugAssign) and norm(a.target) == "self" and "self" in norm(a.value):
+                        grows = a
+            empties = any(isinstance(i, ast.If) and npar in norm(i.test) and any(
+                isinstance(c2, ast.Call) and isinstance(c2.func, ast.Attribute) and c2.func.attr == "clear" for c2 in _calls(i))
+                for i in ast.walk(fn)) or norm(fn).count("super().__imul__") > 0
+            if loops and (grows is not None or not empties):
+                res.findings.append(Finding(
+                    "R-LISTSIB", f"{where} replay content",
+                    f"{where}: " + (f"each of the n-1 extensions adds `{norm(grows.args[0] if isinstance(grows, ast.Call) and grows.args else grows)[:40]}`, "
+                                    f"which reads the list that is being extended: the content doubles at every step "
+                                    f"(x *= 3 holds 4 copies, x *= 4 holds 8)" if grows is not None else
+                                    f"no path empties the list for n <= 0 (x *= 0 leaves the content unchanged)")
+                    + "; `obj.attr *= n` assigns the receiver back to the attribute, so the model holds that content "
+                      "instead of what the Python operation produces", rel, fn.lineno, where))
+            elif not loops and "super().__imul__" not in norm(fn):
+                res.undecided.append(f"{where}: replay on the receiver not recognised")
         else:
             if shadow is None or real is None:
                 ok = False
